@@ -46,6 +46,7 @@ static std::string joinE(std::vector<E> v)
 static void runGraph(int k, int n, bool doPeel, const std::vector<E> &edges)
 {
     printf("## %d\n", k);
+    fflush(stdout);
     try {
         Graph G;
         std::vector<Node_SP> nodes;
